@@ -97,6 +97,9 @@ type service struct {
 	// Whether this is service is closed or not.
 	closed int64
 
+	// Last packet ID handed out for messages forwarded on this connection.
+	pid uint32
+
 	// Quit signal for determining when this service should end. If channel is closed,
 	// then exit.
 	done chan struct{}
@@ -155,6 +158,13 @@ func (svc *service) start() error {
 			sr := msg.Retain()
 			if sr {
 				msg.SetRetain(false)
+			}
+
+			// Packet IDs are scoped to a connection and chosen by the sender: a
+			// forwarded message must not keep the ID its publisher used on another
+			// connection.
+			if msg.QoS() != message.QosAtMostOnce {
+				msg.SetPacketID(svc.nextPacketID())
 			}
 
 			if err := svc.publish(msg, nil); err != nil {
@@ -496,6 +506,16 @@ func assignPacketID(msg message.Message) error {
 	}
 	_, err := msg.Encode(make([]byte, msg.Len()))
 	return err
+}
+
+// nextPacketID returns the packet ID for the next message the server sends on
+// this connection.
+func (svc *service) nextPacketID() uint16 {
+	for {
+		if id := uint16(atomic.AddUint32(&svc.pid, 1)); id != 0 {
+			return id
+		}
+	}
 }
 
 func (svc *service) isDone() bool {
